@@ -238,6 +238,10 @@ class Gen:
             if r != c:
                 return None
             w = rng.choice(["H", "H", "T"])
+            if rng.random() < 0.25:
+                # both factors wrapped around the same (square) operator: NOT a Gram pattern
+                X = self.op(r, r, d)
+                return ["prod", [w, X], [rng.choice(["H", "T"]), X]]
             if rng.random() < 0.5:
                 X = self.op(self.ext(), r, d)
                 return ["prod", [w, X], X]
@@ -286,6 +290,62 @@ class Gen:
         cands = [s for s in itertools.product(range(1, n + 1), repeat=k)
                  if sum(a * b for a, b in zip(s, mults)) == n] if n <= 8 and k <= 3 else []
         return list(self.rng.choice(cands)) if cands else None
+
+    # ---------------------------------------------------------------- special (untargeted) trees
+    def herm_tridiag(self, dt, n):
+        be = [self.zint() for _ in range(n)]
+        ga = [self.z(dt) for _ in range(n - 1)]
+        al = [[v[0], -v[1]] if isinstance(v, list) else v for v in ga]
+        return ["tridiag", dt, al, be, ga]
+
+    def herm_op(self, n, depth):
+        """a Hermitian operator of size n that is NOT a plain annotated Dense (true declaration on a structured kind)"""
+        rng = self.rng
+        dt = rng.choice(["c64", "c128", "c128", "f64"]) if any(is_cplx(d) for d in self.dtypes) else self.dt()
+        k = rng.choice(["generic", "tridiag", "kron", "bdiag", "sum", "diag", "declkron"])
+        if k == "generic":
+            return ["ann", "SelfAdjoint", ["generic", ["dense", dt, n, n, self.herm(dt, n)]]]
+        if k == "tridiag" and n >= 1:
+            return ["ann", "SelfAdjoint", self.herm_tridiag(dt, n)]
+        if k == "diag":
+            return ["ann", rng.choice(["SelfAdjoint", "PSD"]), ["diag", dt, [abs(self.zint()) for _ in range(n)]]]
+        if k == "sum":
+            return ["sum", ["ann", "SelfAdjoint", ["dense", dt, n, n, self.herm(dt, n)]], ["ann", "PSD", ["dense", dt, n, n, self.psd(dt, n)]]]
+        if k in ("kron", "declkron"):
+            fs = self.factor(n, 2)
+            a = ["ann", "SelfAdjoint", ["dense", dt, fs[0], fs[0], self.herm(dt, fs[0])]]
+            b = ["ann", "SelfAdjoint", ["dense", self.dt(), fs[1], fs[1], self.herm("c128", fs[1])]] if False else \
+                ["ann", "SelfAdjoint", ["dense", dt, fs[1], fs[1], self.herm(dt, fs[1])]]
+            if k == "kron":
+                return ["kron", a, b]                         # SelfAdjoint inferred for the composite
+            return ["ann", "SelfAdjoint", ["kron", a[2], b[2]]]   # declared on the composite
+        parts = self.partition(n, 2) or [n]
+        return ["bdiag", [["ann", "SelfAdjoint", ["dense", dt, q, q, self.herm(dt, q)]] for q in parts], [1] * len(parts)]
+
+    def special(self, depth):
+        """trees whose interesting feature needs more than the targeted generator's small extents"""
+        rng = self.rng
+        k = rng.choice(["bigkron", "bigkron", "bigkronsum", "herm", "herm", "bdiagmult"])
+        if k == "bigkron":
+            n = rng.choice([3, 3, 4])
+            dims = [(rng.choice([1, 2, 2]), rng.choice([1, 2, 2])) for _ in range(n)]
+            j = rng.randrange(n)
+            dims[j] = (rng.choice([2, 3]), rng.choice([1, 2, 3]))
+            return ["kron"] + [self.op(a, b, max(0, depth - 2)) for a, b in dims]
+        if k == "bigkronsum":
+            return ["kronsum"] + [self.op(q, q, max(0, depth - 2)) for q in [2, 2, rng.choice([1, 2])]]
+        if k == "bdiagmult":
+            return ["bdiag", [self.op(rng.choice([1, 2]), rng.choice([1, 2, 3]), max(0, depth - 2)) for _ in range(2)], [rng.choice([2, 3]), rng.choice([1, 2])]]
+        n = rng.randint(2, 4)
+        h = self.herm_op(n, depth)
+        w = rng.choice(["plain", "T", "H", "prod", "slice"])
+        if w == "T":
+            return ["T", h]
+        if w == "H":
+            return ["H", h]
+        if w == "prod":
+            return ["prod", self.op(rng.randint(1, 3), n, 0), h]
+        return h
 
     def shape(self):
         """shape classes: 1xN, Nx1, square, tall, wide (8*rows < cols)"""
